@@ -220,7 +220,11 @@ func (e *Engine) visitInstr(fr *frame, instr ssa.Instruction) bool /* returned *
 		e.chanSend(c, fr.get(instr.X))
 
 	case *ssa.Store:
-		e.store(fr.get(instr.Addr).(*Value), fr.get(instr.Val))
+		if sp, ok := fr.get(instr.Addr).(*SymPtr); ok {
+			e.symStore(sp, fr.get(instr.Val).(*smt.Term))
+		} else {
+			e.store(fr.get(instr.Addr).(*Value), fr.get(instr.Val))
+		}
 
 	case *ssa.If:
 		succ := 1
@@ -297,6 +301,10 @@ func (e *Engine) visitInstr(fr *frame, instr ssa.Instruction) bool /* returned *
 		x := fr.get(instr.X)
 		switch x := x.(type) {
 		case []Value:
+			if sp := e.symIndexAddr(x, fr.get(instr.Index), instr.Index.Type()); sp != nil {
+				fr.env[instr] = sp
+				break
+			}
 			i := e.index(fr.get(instr.Index), instr.Index.Type(), len(x))
 			fr.env[instr] = &x[i]
 		case *Value:
@@ -304,6 +312,10 @@ func (e *Engine) visitInstr(fr *frame, instr ssa.Instruction) bool /* returned *
 				e.rtPanic("invalid memory address or nil pointer dereference")
 			}
 			a := (*x).(Array)
+			if sp := e.symIndexAddr([]Value(a), fr.get(instr.Index), instr.Index.Type()); sp != nil {
+				fr.env[instr] = sp
+				break
+			}
 			i := e.index(fr.get(instr.Index), instr.Index.Type(), len(a))
 			fr.env[instr] = &a[i]
 		default:
@@ -396,8 +408,7 @@ func (e *Engine) index(idx Value, t types.Type, n int) int {
 		return int(i)
 	}
 	// symbolic: check range, then concretise
-	w := it.S.W
-	inRange := smt.Ult(it, smt.Const(w, uint64(n)))
+	inRange := inRangeTerm(it, n)
 	if !e.branch(inRange) {
 		e.rtPanic(fmt.Sprintf("index out of range [symbolic] with length %d", n))
 	}
@@ -422,15 +433,16 @@ func (e *Engine) indexRead(vals []Value, idx Value, t types.Type) Value {
 		return copyVal(vals[e.index(idx, t, len(vals))])
 	}
 	w := it.S.W
-	inRange := smt.Ult(it, smt.Const(w, uint64(len(vals))))
+	inRange := inRangeTerm(it, len(vals))
 	if !e.branch(inRange) {
 		e.rtPanic(fmt.Sprintf("index out of range [symbolic] with length %d", len(vals)))
 	}
-	r := vals[len(vals)-1].(*smt.Term)
-	for i := len(vals) - 2; i >= 0; i-- {
-		r = smt.Ite(smt.Eq(it, smt.Const(w, uint64(i))), vals[i].(*smt.Term), r)
+	_ = w
+	ts := make([]*smt.Term, len(vals))
+	for i := range ts {
+		ts[i] = vals[i].(*smt.Term)
 	}
-	return r
+	return muxTerms(ts, it)
 }
 
 func (e *Engine) slice(fr *frame, instr *ssa.Slice) Value {
@@ -605,7 +617,7 @@ var skipInit = map[string]bool{
 	"golang.org/x/sync/singleflight": true, "crypto/rand": true, "math/rand": true, "math/rand/v2": true,
 	"internal/chacha8rand": true, "encoding/base64": false, "fmt": true, "internal/fmtsort": true,
 	"regexp": true, "regexp/syntax": true, "text/template": true, "html/template": true, "html": true,
-	"encoding/binary": true, "encoding/hex": false, "unicode": false, "crypto/ecdsa": true, "crypto/elliptic": true,
+	"encoding/hex": false, "unicode": false, "crypto/ecdsa": true, "crypto/elliptic": true,
 	"crypto/rsa": true, "crypto/ed25519": true, "crypto/dsa": true, "encoding/asn1": true, "crypto/x509/pkix": true,
 	"crypto/aes": true, "crypto/cipher": true, "crypto/des": true, "crypto/hmac": true, "crypto/rc4": true,
 	"crypto/subtle": true, "crypto/ecdh": true, "crypto/internal/nistec": true, "crypto/internal/edwards25519": true,
@@ -823,3 +835,82 @@ func (e *Engine) doRecover(caller *frame) Value {
 }
 
 var _ = token.NoPos
+
+
+// SymPtr is a pointer to an element of a slice/array of scalars selected by a symbolic
+// (in-range) index. Loads build an ite chain, stores update every element conditionally.
+type SymPtr struct {
+	elems []Value
+	idx   *smt.Term
+}
+
+func (e *Engine) symIndexAddr(elems []Value, idx Value, t types.Type) *SymPtr {
+	it := idx.(*smt.Term)
+	if it.IsConst() || len(elems) == 0 || len(elems) > 512 {
+		return nil
+	}
+	for _, v := range elems {
+		if _, ok := v.(*smt.Term); !ok {
+			return nil
+		}
+	}
+	inRange := inRangeTerm(it, len(elems))
+	if !e.branch(inRange) {
+		e.rtPanic(fmt.Sprintf("index out of range [symbolic] with length %d", len(elems)))
+	}
+	return &SymPtr{elems: elems, idx: it}
+}
+
+func (e *Engine) symLoad(sp *SymPtr) Value {
+	ts := make([]*smt.Term, len(sp.elems))
+	for i := range ts {
+		ts[i] = sp.elems[i].(*smt.Term)
+	}
+	return muxTerms(ts, sp.idx)
+}
+
+// muxTerms selects ts[idx] (idx known to be in range) as a balanced multiplexer over the
+// bits of idx; out-of-range positions repeat the last element.
+func muxTerms(ts []*smt.Term, idx *smt.Term) *smt.Term {
+	n := len(ts)
+	bits := 0
+	for (1 << uint(bits)) < n {
+		bits++
+	}
+	if bits > idx.S.W {
+		bits = idx.S.W
+	}
+	var rec func(lo, bit int) *smt.Term
+	rec = func(lo, bit int) *smt.Term {
+		if lo >= n {
+			return ts[n-1]
+		}
+		if bit < 0 {
+			return ts[lo]
+		}
+		b := smt.Eq(smt.Extract(idx, bit, bit), smt.Const(1, 1))
+		hi := rec(lo+(1<<uint(bit)), bit-1)
+		low := rec(lo, bit-1)
+		return smt.Ite(b, hi, low)
+	}
+	return rec(0, bits-1)
+}
+
+func (e *Engine) symStore(sp *SymPtr, v *smt.Term) {
+	w := sp.idx.S.W
+	for i := range sp.elems {
+		old := sp.elems[i].(*smt.Term)
+		e.store(&sp.elems[i], smt.Ite(smt.Eq(sp.idx, smt.Const(w, uint64(i))), v, old))
+	}
+}
+
+
+// inRangeTerm is 0 <= it < n for an index of any width (unsigned comparison also rejects
+// negative signed indexes).
+func inRangeTerm(it *smt.Term, n int) *smt.Term {
+	w := it.S.W
+	if w < 64 && uint64(n) > (uint64(1)<<uint(w))-1 {
+		return smt.True
+	}
+	return smt.Ult(it, smt.Const(w, uint64(n)))
+}
